@@ -88,7 +88,13 @@ Definition mismatches_C10 := mism false pi_removal.   Definition propfail_C10 :=
 Definition mismatches_C11 := mism true pi_writes.     Definition propfail_C11 := pfail check_C11_group.
 Definition mismatches_C12 := mism false full.         Definition propfail_C12 := pfail check_C12_group.
 Definition mismatches_C15 := mism false pi_updates.   Definition propfail_C15 := pfail check_C15_group.
-Definition mismatches_C19 := mism false pi_removal.   Definition propfail_C19 := pfail check_C19_group.
+Definition mismatches_C19 := mism false pi_removal.
+(* C19 on an observed scan: the journal checker, and: when the reaper's request meets a node that is no member of the cloud
+   group (the model's run_once of the snapshot ends fatally: theorems c19_fatal_only_not_in_group, c20_run_once_ends) the observed
+   RunOnce must have returned that error (outcome 2), not carried on *)
+Definition propfail_C19 (cs : list scan_case) : list nat :=
+  indices_where (fun c => negb (for_groups check_C19_group (sc_snap c) (obs_calls c))
+                          || ((snd (model_groups (sc_snap c)) =? 2) && negb (sc_out c =? 2))) cs 0.
 Definition mismatches_C02 := mism true pi_writes.
 Definition propfail_C02 (cs : list scan_case) : list nat :=
   indices_where (fun c => negb (forallb (fun g => match find_group (sc_snap c) (og_name g) with
